@@ -7,6 +7,7 @@ from functools import reduce
 from itertools import count
 from types import CodeType, FunctionType
 
+from . import _verif
 from .utils import MISSING, NameDatabase, Unusable, UsageError, subtler_type
 
 recurse = Unusable(
@@ -203,6 +204,8 @@ def generate_dependent_dispatch(tup, handlers, next_call, slf, name, err, nerr):
         featured = set(types[k] for h, types in handlers)
         if len(featured) == len(handlers):
             possibilities = set(type(t) for t in featured)
+            if _verif.ACTIVE:
+                possibilities = _verif.order("recode.kinds", possibilities)
             focus = possibilities.pop()
             # Possibilities is now empty if only one type of DependentType
 
